@@ -7,12 +7,25 @@
 (* gate P is currently waiting at (last[P]) -- "release P now" -- and records    *)
 (* the gate P will reach after the action.  The Go harness replays the key       *)
 (* sequence with vh.Sched.  Steps without a gate in front of them (last = "")    *)
-(* cannot be steered and happen when the Go scheduler pleases; the batch timer   *)
-(* is not gateable either (Go's select chooses), so WTimer is left out.          *)
+(* cannot be steered and happen when the Go scheduler pleases.                   *)
+(*                                                                               *)
+(* Environment actions are part of the script: the k-th ExportSpans call answers *)
+(* outs[k] (the recording exporter of the harness is told the list), and         *)
+(* CtxExpire(c) is the entry "c@ctx.expire/<gate c waits at>" executed by a      *)
+(* canceller goroutine of the harness once c has arrived at that gate.           *)
+(* The batch timer is not a gate (Go's select chooses): with TimerSim the        *)
+(* harness runs a tiny BatchTimeout and WTimer is taken only while the queue is  *)
+(* empty, where the real worker has nothing else to do until the timer fires --  *)
+(* the timer-triggered export then shows up at the exporter's natural gate.      *)
 EXTENDS BSP, Json
 
-VARIABLES hist, last, fin
-svars == <<vars, hist, last, fin>>
+CONSTANT TimerSim
+VARIABLES hist, last, outs, fin
+svars == <<vars, hist, last, outs, fin>>
+
+H(f) == "h" \o f                  \* the export helper goroutine of flusher f
+HS == "hs"                        \* the helper goroutine of the Shutdown body
+SimProcs == Procs \cup {H(f) : f \in Flushers} \cup {HS}
 
 SK(p) == p \o ":" \o ToString(pidx[p])
 SKn(p) == p \o ":" \o ToString(pidx[p] + 1)
@@ -20,47 +33,66 @@ IdK(id) == id[1] \o ":" \o ToString(id[2])
 (* release x from its current gate; afterwards it will wait at `after` ("" = no gate) *)
 Rel(x, after) == /\ hist' = (IF last[x] = "" THEN hist ELSE Append(hist, last[x]))
                  /\ last' = [last EXCEPT ![x] = after]
-                 /\ UNCHANGED fin
-Keep == UNCHANGED <<hist, last, fin>>
+                 /\ UNCHANGED <<fin, outs>>
+(* a helper goroutine h takes its first step: its parent x must have been released from its gate *)
+Rel2(x, h, after) == /\ hist' = (IF last[x] = "" THEN hist ELSE Append(hist, last[x]))
+                     /\ last' = [last EXCEPT ![x] = "", ![h] = after]
+                     /\ UNCHANGED <<fin, outs>>
+(* the exporter returns: release it from its gate and fix the answer of this export *)
+RelOut(x, o) == /\ hist' = (IF last[x] = "" THEN hist ELSE Append(hist, last[x]))
+                /\ last' = [last EXCEPT ![x] = ""]
+                /\ outs' = Append(outs, o) /\ UNCHANGED fin
+Keep == UNCHANGED <<hist, last, outs, fin>>
+
+PEnqKey(p) == IF queue' # queue THEN "@bsp.enq.sent" ELSE IF dropped' # dropped THEN "@bsp.enq.dropped" ELSE "@bsp.enq.stopped"
+FEnqKey(f) == IF queue' # queue THEN f \o "@bsp.ff.marker" ELSE IF pc'[f] = "ret" THEN f \o "@bsp.ff.stopch" ELSE ""
 
 SimNext ==
   \/ \E p \in Producers :
         \/ PCall(p) /\ Keep
         \/ PCheck(p) /\ Rel(p, SK(p) \o (IF stopped THEN "@bsp.onend.ignored" ELSE "@bsp.onend.checked"))
-        \/ PEnq(p) /\ Rel(p, SK(p) \o (IF Len(queue) < QCap THEN "@bsp.enq.sent" ELSE "@bsp.enq.dropped"))
+        \/ PEnq(p) /\ Rel(p, SK(p) \o PEnqKey(p))
         \/ PRet(p) /\ Rel(p, SKn(p) \o "@call")
   \/ WStop /\ Rel("w", "")
+  \/ TimerSim /\ queue = <<>> /\ WTimer /\ Rel("w", "")
   \/ WDeq /\ (IF Head(queue).t = "marker" THEN Rel("w", "")
               ELSE Rel("w", (IF pc["w"] = "select" THEN "w@bsp.worker.dequeued:" ELSE "w@bsp.drain.dequeued:") \o IdK(Head(queue).id)))
   \/ WAppend /\ Rel("w", IF pc["w"] = "append" THEN "w@bsp.worker.appended:" \o IdK(wtmp) ELSE "")
   \/ WDrainEmpty /\ Rel("w", "w@bsp.drain.empty")
   \/ WExpLock /\ Rel("w", IF batch = <<>> THEN "" ELSE "x@exp.begin")
-  \/ WExpEnd /\ Rel("w", "")
+  \/ \E o \in Outcomes : WExpEnd(o) /\ RelOut("w", o)
   \/ \E f \in Flushers :
         \/ FCall(f) /\ Keep
-        \/ FCheck(f) /\ Rel(f, f \o (IF stopped THEN "@bsp.ff.stopped" ELSE "@bsp.ff.checked"))
-        \/ FEnq(f) /\ Rel(f, f \o "@bsp.ff.marker")
+        \/ FCheck(f) /\ Rel(f, IF f \in expired THEN "" ELSE f \o (IF stopped THEN "@bsp.ff.stopped" ELSE "@bsp.ff.checked"))
+        \/ FEnq(f) /\ Rel(f, FEnqKey(f))
         \/ FWaitStop(f) /\ Rel(f, f \o "@bsp.ff.stopch")
         \/ FWaitFlushed(f) /\ Rel(f, f \o "@bsp.ff.flushed")
-        \/ FExpLock(f) /\ Rel(f, IF batch = <<>> THEN "" ELSE "x@exp.begin")
-        \/ FExpEnd(f) /\ Rel(f, "")
+        \/ FWaitCtx(f) /\ Rel(f, "")
+        \/ HExpLock(f) /\ Rel2(f, H(f), IF batch = <<>> THEN "" ELSE "x@exp.begin")
+        \/ \E o \in Outcomes : HExpEnd(f, o) /\ RelOut(H(f), o)
+        \/ FExpDone(f) /\ Rel(f, "")
+        \/ FExpCtx(f) /\ Rel(f, "")
         \/ FRet(f) /\ Rel(f, "")
   \/ \E s \in Stoppers :
         \/ SCall(s) /\ (IF \E o \in Stoppers : pc[o] \notin {"idle", "oncewait"}
                           THEN Rel(s, "")      \* a later caller really calls now and blocks in sync.Once
                           ELSE Keep)           \* the first caller: call and SSet are one real step
         \/ SSet(s) /\ Rel(s, s \o "@bsp.sd.stopped")
-        \/ SClose(s) /\ Rel(s, s \o "@bsp.sd.closed")
+        \/ HClose /\ pc[s] \notin {"idle", "set", "oncewait"} /\ hs = "close" /\ Rel2(s, HS, s \o "@bsp.sd.closed")
         \/ SWait(s) /\ Rel(s, "")
+        \/ SCtx(s) /\ hs # "close" /\ Rel(s, "")   \* (the helper is started by the release that precedes SCtx)
         \/ SOnceWait(s) /\ Keep
         \/ SRet(s) /\ Keep
+  \/ HWait /\ Rel(HS, "")
+  \/ \E c \in Callers : CtxExpire(c) /\ hist' = Append(hist, c \o "@ctx.expire/" \o last[c])
+                                     /\ UNCHANGED <<last, outs, fin>>
 
 Finish == /\ ~fin /\ (AllDone \/ ~ENABLED Next)
-          /\ PrintT("BEHAVIOUR " \o ToJson([script |-> hist, alldone |-> AllDone, bad |-> mon.bad]))
-          /\ fin' = TRUE /\ UNCHANGED <<vars, hist, last>>
+          /\ PrintT("BEHAVIOUR " \o ToJson([script |-> hist, outcomes |-> outs, alldone |-> AllDone, bad |-> mon.bad]))
+          /\ fin' = TRUE /\ UNCHANGED <<vars, hist, last, outs>>
 
-SimInit == /\ Init /\ hist = <<>> /\ fin = FALSE
-           /\ last = [x \in Procs |-> IF x \in Producers THEN x \o ":1@call"
-                                      ELSE IF x = "w" THEN "" ELSE x \o "@call"]
+SimInit == /\ Init /\ hist = <<>> /\ outs = <<>> /\ fin = FALSE
+           /\ last = [x \in SimProcs |-> IF x \in Producers THEN x \o ":1@call"
+                                         ELSE IF x \in Callers THEN x \o "@call" ELSE ""]
 SimSpec == SimInit /\ [][(~fin /\ SimNext) \/ Finish]_svars
 =============================================================================
